@@ -52,3 +52,7 @@ N("c05-n-exit-parent-var", "C05", A, EX,
 N("c05-n-timer-is-not-none", "C05", A, EX,
   "            if self._timeout_handle:\n                self._timeout_handle.cancel()\n                self._timeout_handle = None\n\n            self._tasks.remove",
   "            if self._timeout_handle is not None:\n                self._timeout_handle.cancel()\n                self._timeout_handle = None\n\n            self._tasks.remove")
+
+# from seeded change C05/b
+M("c05-setter-keeps-old-timer", "C05", A, "CancelScope.deadline@setter",
+  "        if self._timeout_handle is not None:\n            self._timeout_handle.cancel()\n            self._timeout_handle = None\n\n", "", ["R05-c"])
